@@ -1,0 +1,55 @@
+//go:build verif
+// +build verif
+
+package redis
+
+import (
+	"bytes"
+	"time"
+)
+
+// DoChecked is Do, and additionally compares the reply as it is at the moment the request
+// completes (taken by the last hook to run) with the reply a reader sees shortly afterwards:
+// a session writer may encode the reply as soon as the request is done, so it must be final
+// by then. stable is false when the two differ.
+func (e *VerifEnv) DoChecked(v *RespValue, timeout time.Duration) (reply *RespValue, timedOut bool, stable bool) {
+	req := newRawRequest(v)
+	var atDone []byte
+	encode := func(r *RespValue) []byte {
+		if r == nil {
+			return nil
+		}
+		var b bytes.Buffer
+		enc := newEncoder(&b, 4096)
+		enc.Encode(r)
+		enc.Flush()
+		return b.Bytes()
+	}
+	// registered first, so it runs last (hooks run in LIFO order)
+	req.RegisterHook(func(r *rawRequest) { atDone = encode(r.Response()) })
+	panicked := false
+	func() {
+		defer func() {
+			if r := recover(); r != nil {
+				e.notePanic("handleRequest", r)
+				panicked = true
+			}
+		}()
+		e.p.handleRequest(req)
+	}()
+	if panicked {
+		return nil, false, true
+	}
+	select {
+	case <-req.done:
+	case <-time.After(timeout):
+		return nil, true, true
+	}
+	// whoever still touches the reply does so right after the completion
+	stable = true
+	for i := 0; i < 4 && stable; i++ {
+		time.Sleep(500 * time.Microsecond)
+		stable = bytes.Equal(atDone, encode(req.Response()))
+	}
+	return verifCopy(req.Response()), false, stable
+}
